@@ -141,9 +141,6 @@ def wordFilter (w : Bytes) : MatchFilter :=
 def phraseFilter (p : Bytes) : MatchFilter :=
   { words := splitSpace p, wordsOrig := [], op := .and, phrase := p, phraseOrig := [], isPhrase := true, negate := false }
 
-/-- a word that is not made of spaces only (it has a non-empty piece) -/
-def NotBlank (w : Bytes) : Prop := ∃ s ∈ splitSpace w, s ≠ []
-
 /-- a key of the repaired probe is a non-empty piece of one of the former keys; such a piece is found in the block as
 soon as the former key is a needle that the record matcher finds in the value -/
 theorem piece_found (ci : Bool) (v k x : Bytes) (b : BloomLike) (cols : Cols) (p : Probe)
@@ -151,26 +148,27 @@ theorem piece_found (ci : Bool) (v k x : Bytes) (b : BloomLike) (cols : Cols) (p
     (hsub : subWord ci v k = true) (hx : x ∈ splitSpace k) (hne : x ≠ []) : needleInCols cols p x = true :=
   needleInCols_of_test cols b p x hc (hb x (pieces_added ci v k hlow hsub x hx hne))
 
-/-- C03.3 (words, full filter) a block holding a record that satisfies an And/Or filter of match words — of ANY number
-of tokens each — is kept, on rotated and on open segments, whichever columns are consulted, for any bloom-like filter.
-(Case-insensitive search: lower-cased words, as the query grammar produces them; Or filters: no word made of spaces only.) -/
-theorem bloom_prune_sound_words (mf : MatchFilter) (ci : Bool) (v : Bytes) (b : BloomLike) (cols : Cols) (allCols : Bool)
+/-- the words theorem for the probe as it was before patch c03-F, under the guard that patch makes unnecessary: when the
+probe's operator is Or, no match word is blank (empty or spaces only) -/
+theorem bloom_prune_sound_words_noBlankTest (mf : MatchFilter) (ci : Bool) (v : Bytes) (b : BloomLike) (cols : Cols) (allCols : Bool)
     (hb : b.holds (addedKeys v)) (hc : some b ∈ cols) (hph : mf.isPhrase = false)
     (hlow : ci = true → ∀ w ∈ mf.words, hasUpper w = false)
-    (hor : mf.op = .or → ∀ w ∈ mf.words, NotBlank w)
+    (hor : (mf.probeNoBlankTest ci).op = .or → ∀ w ∈ mf.words, blankWord w = false)
     (h : matchRaw mf ci (.str v) = true) :
-    passRotated allCols cols (mf.probe ci) false = true ∧ passUnrotated cols (mf.probe ci) false = true := by
+    passRotated allCols cols (mf.probeNoBlankTest ci) false = true ∧ passUnrotated cols (mf.probeNoBlankTest ci) false = true := by
   obtain ⟨hwc, hks⟩ := wordsLoop_spec ci (mf.wordsOrig.length == mf.words.length) mf.wordsOrig mf.words 0 [] [] false
-  have hp : mf.probe ci =
+  have hp : mf.probeNoBlankTest ci =
       { keys := wordsOfKeys (wordsLoop ci (mf.wordsOrig.length == mf.words.length) mf.wordsOrig mf.words 0 ([], [], false)).1,
         orig := (wordsLoop ci (mf.wordsOrig.length == mf.words.length) mf.wordsOrig mf.words 0 ([], [], false)).2.1,
         wildcard := (wordsLoop ci (mf.wordsOrig.length == mf.words.length) mf.wordsOrig mf.words 0 ([], [], false)).2.2,
         op := if (wordsLoop ci (mf.wordsOrig.length == mf.words.length) mf.wordsOrig mf.words 0 ([], [], false)).1.length == 1
               then .and else mf.op } := by
-    simp [MatchFilter.probe, MatchFilter.probeOld, hph]
+    simp [MatchFilter.probeNoBlankTest, MatchFilter.probeOld, hph]
   generalize hr : wordsLoop ci (mf.wordsOrig.length == mf.words.length) mf.wordsOrig mf.words 0 ([], [], false) = r at hp hwc hks
   obtain ⟨ks, os, wc⟩ := r
   simp only at hp hwc hks
+  rw [hp] at hor
+  simp only at hor
   rw [hp]
   cases hwcv : wc with
   | true => simp [passRotated, passUnrotated]
@@ -243,12 +241,39 @@ theorem bloom_prune_sound_words (mf : MatchFilter) (ci : Bool) (v : Bytes) (b : 
           cases allCols <;> simp [hall]
         · have h1' : (ks.length == 1) = false := by simpa using h1
           have hopP : P.op = Op.or := by rw [hPo, hop]; simp [h1']
-          obtain ⟨s, hs, hsne⟩ := hor hop w0 hw0
+          obtain ⟨s, hs, hsne⟩ := piece_of_not_blank w0 (hor (by simp [h1', hop]) w0 hw0)
           have hAny : (wordsOfKeys ks).any (needleInCols cols P) = true := by
             rw [List.any_eq_true]
             exact ⟨s, (mem_wordsOfKeys ks s).2 ⟨w0, hw0k, hs, hsne⟩, hE w0 hw0 hsub s hs hsne⟩
           rw [hopP, forColLoop_or, allColLoop_or_any _ _ _ hAny]
           cases allCols <;> simp
+
+/-- an Or probe over a filter with a blank word asks nothing (patch c03-F): the block is kept -/
+theorem pass_of_no_keys (allCols : Bool) (cols : Cols) (p : Probe) (negate : Bool) :
+    passRotated allCols cols { p with keys := [] } negate = true ∧ passUnrotated cols { p with keys := [] } negate = true := by
+  cases allCols <;> simp [passRotated, passUnrotated, forColLoop, allColLoop]
+
+/-- C03.3 (words, full filter) a block holding a record that satisfies an And/Or filter of match words — of ANY number
+of tokens each, blank words included — is kept, on rotated and on open segments, whichever columns are consulted, for any
+bloom-like filter.  (Case-insensitive search: lower-cased words, as the query grammar produces them.) -/
+theorem bloom_prune_sound_words (mf : MatchFilter) (ci : Bool) (v : Bytes) (b : BloomLike) (cols : Cols) (allCols : Bool)
+    (hb : b.holds (addedKeys v)) (hc : some b ∈ cols) (hph : mf.isPhrase = false)
+    (hlow : ci = true → ∀ w ∈ mf.words, hasUpper w = false)
+    (h : matchRaw mf ci (.str v) = true) :
+    passRotated allCols cols (mf.probe ci) false = true ∧ passUnrotated cols (mf.probe ci) false = true := by
+  unfold MatchFilter.probe
+  simp only
+  split
+  · exact pass_of_no_keys allCols cols _ false
+  · rename_i hc2
+    apply bloom_prune_sound_words_noBlankTest mf ci v b cols allCols hb hc hph hlow _ h
+    intro hop w hw
+    cases hbw : blankWord w with
+    | false => rfl
+    | true =>
+      exfalso; apply hc2
+      simp only [hop, beq_self_eq_true, Bool.true_and, List.any_eq_true]
+      exact ⟨w, hw, hbw⟩
 
 /-- C03.3 (one word, case-sensitive and case-insensitive, ANY word) `IsSubWordPresent(v, w)` ⇒ the block is kept -/
 theorem bloom_prune_sound_word (ci : Bool) (v w : Bytes) (b : BloomLike) (cols : Cols) (allCols : Bool)
@@ -258,8 +283,22 @@ theorem bloom_prune_sound_word (ci : Bool) (v w : Bytes) (b : BloomLike) (cols :
     passUnrotated cols ((wordFilter w).probe ci) false = true := by
   apply bloom_prune_sound_words (wordFilter w) ci v b cols allCols hb hc rfl
   · intro e x hx; simp [wordFilter] at hx; subst hx; exact hlow e
-  · intro e; simp [wordFilter] at e
   · simp [matchRaw, wordFilter, h]
+
+/-- the Or filter of the words "nope", "", "zzz" -/
+def orBlankFilter : MatchFilter :=
+  { words := [[110, 111, 112, 101], [], [122, 122, 122]], wordsOrig := [], op := .or, phrase := [], phraseOrig := [],
+    isPhrase := false, negate := false }
+
+/-- before patch c03-F (between c03-A and c03-F): an OR filter with an EMPTY match word — a `multi_match` phrase query
+with two spaces in a row builds one — matches, at record level, every value that starts or ends with a space, but only
+the other words were probed: a block holding " ddd" and no "nope"/"zzz" was dropped by the all-columns / open-segment
+check (the single-column check of rotated segments never drops a block for an Or, hence the layout dependence) -/
+theorem or_blank_word_counterexample_old :
+    matchRaw orBlankFilter false (.str [32, 100, 100, 100]) = true ∧
+    passUnrotated [some (exact (addedKeys [32, 100, 100, 100]))] (orBlankFilter.probeNoBlankTest false) false = false ∧
+    passRotated false [some (exact (addedKeys [32, 100, 100, 100]))] (orBlankFilter.probeNoBlankTest false) false = true ∧
+    passUnrotated [some (exact (addedKeys [32, 100, 100, 100]))] (orBlankFilter.probe false) false = true := by decide
 
 /-- the case-insensitive rule needs the lower-cased needle the query grammar produces: a needle with upper-case bytes
 that differs in case from the stored token is probed as is and missed -/
@@ -273,15 +312,15 @@ theorem bloom_ci_needs_lowered_needle :
 
 /-- C03.3 (phrase) every phrase filter (And or Or, any phrase: one word, several words, empty, leading / trailing /
 double spaces) keeps a block that holds a value in which the record matcher finds the phrase -/
-theorem bloom_prune_sound_phrase (mf : MatchFilter) (ci : Bool) (v : Bytes) (b : BloomLike) (cols : Cols) (allCols : Bool)
+theorem bloom_prune_sound_phrase_noBlankTest (mf : MatchFilter) (ci : Bool) (v : Bytes) (b : BloomLike) (cols : Cols) (allCols : Bool)
     (hb : b.holds (addedKeys v)) (hc : some b ∈ cols) (hph : mf.isPhrase = true)
     (hlow : ci = true → hasUpper mf.phrase = false)
     (h : subWord ci v mf.phrase = true) :
-    passRotated allCols cols (mf.probe ci) false = true ∧ passUnrotated cols (mf.probe ci) false = true := by
+    passRotated allCols cols (mf.probeNoBlankTest ci) false = true ∧ passUnrotated cols (mf.probeNoBlankTest ci) false = true := by
   by_cases hs : hasStar mf.phrase = true
-  · simp [MatchFilter.probe, MatchFilter.probeOld, hph, hs, passRotated, passUnrotated]
+  · simp [MatchFilter.probeNoBlankTest, MatchFilter.probeOld, hph, hs, passRotated, passUnrotated]
   · have hs' : hasStar mf.phrase = false := by simpa using hs
-    simp only [MatchFilter.probe, MatchFilter.probeOld, hph, hs', if_true, Bool.false_eq_true, if_false, passRotated,
+    simp only [MatchFilter.probeNoBlankTest, MatchFilter.probeOld, hph, hs', if_true, Bool.false_eq_true, if_false, passRotated,
       passUnrotated, Bool.false_or]
     generalize hP : ({ keys := wordsOfKeys [mf.phrase],
                        orig := if (ci && !mf.phraseOrig.isEmpty) = true then [(mf.phrase, mf.phraseOrig)] else [],
@@ -304,6 +343,94 @@ theorem bloom_prune_sound_phrase (mf : MatchFilter) (ci : Bool) (v : Bytes) (b :
           rw [hk] at hall; simp only [List.all_cons, Bool.and_eq_true] at hall; exact hall.1
         rw [allColLoop_or_any _ _ _ (by simp [ha])]
         cases allCols <;> simp
+
+theorem bloom_prune_sound_phrase (mf : MatchFilter) (ci : Bool) (v : Bytes) (b : BloomLike) (cols : Cols) (allCols : Bool)
+    (hb : b.holds (addedKeys v)) (hc : some b ∈ cols) (hph : mf.isPhrase = true)
+    (hlow : ci = true → hasUpper mf.phrase = false)
+    (h : subWord ci v mf.phrase = true) :
+    passRotated allCols cols (mf.probe ci) false = true ∧ passUnrotated cols (mf.probe ci) false = true := by
+  unfold MatchFilter.probe
+  simp only
+  split
+  · exact pass_of_no_keys allCols cols _ false
+  · exact bloom_prune_sound_phrase_noBlankTest mf ci v b cols allCols hb hc hph hlow h
+
+/-- C03.3 (phrase filter with operator Or, as `multi_match` type phrase builds it: the match words are the pieces of the
+phrase).  At record level such a filter asks for ANY of its words; a block holding a value with one of them is kept. -/
+theorem bloom_prune_sound_phrase_or (mf : MatchFilter) (ci : Bool) (v : Bytes) (b : BloomLike) (cols : Cols) (allCols : Bool)
+    (hb : b.holds (addedKeys v)) (hc : some b ∈ cols) (hph : mf.isPhrase = true) (hop : mf.op = .or)
+    (hwords : mf.words = splitSpace mf.phrase)
+    (hlow : ci = true → hasUpper mf.phrase = false)
+    (h : matchRaw mf ci (.str v) = true) :
+    passRotated allCols cols (mf.probe ci) false = true ∧ passUnrotated cols (mf.probe ci) false = true := by
+  unfold MatchFilter.probe
+  simp only
+  split
+  · exact pass_of_no_keys allCols cols _ false
+  · rename_i hc2
+    by_cases hs : hasStar mf.phrase = true
+    · simp [MatchFilter.probeNoBlankTest, MatchFilter.probeOld, hph, hs, passRotated, passUnrotated]
+    · have hs' : hasStar mf.phrase = false := by simpa using hs
+      have hopP : (mf.probeNoBlankTest ci).op = .or := by
+        simp [MatchFilter.probeNoBlankTest, MatchFilter.probeOld, hph, hs', hop]
+      have hnb : ∀ w ∈ mf.words, blankWord w = false := by
+        intro w hw
+        cases hbw : blankWord w with
+        | false => rfl
+        | true =>
+          exfalso; apply hc2
+          simp only [hopP, beq_self_eq_true, Bool.true_and, List.any_eq_true]
+          exact ⟨w, hw, hbw⟩
+      have hne : mf.words.isEmpty = false := by
+        rw [hwords]; cases hsp : splitSpace mf.phrase with
+        | nil => exact absurd hsp (splitSpace_ne_nil _)
+        | cons a r => rfl
+      simp only [matchRaw, hne, Bool.false_eq_true, if_false, hop, List.any_eq_true] at h
+      obtain ⟨w0, hw0, hsub⟩ := h
+      have hw0ne : w0 ≠ [] := by
+        intro e; have := hnb w0 hw0; rw [e] at this; simp [blankWord] at this
+      have hw0p : w0 ∈ splitSpace mf.phrase := by rw [← hwords]; exact hw0
+      have hw0low : ci = true → hasUpper w0 = false := fun e => hasUpper_piece mf.phrase w0 hw0p (hlow e)
+      -- w0 has no space, it is its own only piece
+      have hw0sp : 32 ∉ w0 := by
+        intro hm
+        have : ∀ (p s : Bytes), s ∈ splitSpace p → 32 ∉ s := by
+          intro p
+          induction p with
+          | nil => intro s hs; simp [splitSpace] at hs; subst hs; simp
+          | cons c r ih =>
+            intro s hs
+            by_cases hcs : c = 32
+            · simp only [splitSpace, hcs, if_true, List.mem_cons] at hs
+              rcases hs with rfl | hs
+              · simp
+              · exact ih s hs
+            · simp only [splitSpace, hcs, if_false] at hs
+              cases hsr : splitSpace r with
+              | nil => exact absurd hsr (splitSpace_ne_nil r)
+              | cons s0 ss =>
+                rw [hsr] at hs
+                simp only [List.mem_cons] at hs
+                rcases hs with rfl | hs
+                · intro hm2
+                  simp only [List.mem_cons] at hm2
+                  rcases hm2 with e | hm2
+                  · exact hcs e.symm
+                  · exact ih s0 (by rw [hsr]; simp) hm2
+                · exact ih s (by rw [hsr]; simp [hs])
+        exact this mf.phrase w0 hw0p hm
+      have hkey : w0 ∈ addedKeys v := key_added_token ci v w0 hw0ne hw0sp hw0low hsub
+      simp only [MatchFilter.probeNoBlankTest, MatchFilter.probeOld, hph, hs', if_true, Bool.false_eq_true, if_false,
+        passRotated, passUnrotated, Bool.false_or, hop]
+      generalize hP : ({ keys := wordsOfKeys [mf.phrase],
+                         orig := if (ci && !mf.phraseOrig.isEmpty) = true then [(mf.phrase, mf.phraseOrig)] else [],
+                         wildcard := false, op := Op.or } : Probe) = P
+      have hmemk : w0 ∈ wordsOfKeys [mf.phrase] := (mem_wordsOfKeys _ w0).2 ⟨mf.phrase, by simp, hw0p, hw0ne⟩
+      have hAny : (wordsOfKeys [mf.phrase]).any (needleInCols cols P) = true := by
+        rw [List.any_eq_true]
+        exact ⟨w0, hmemk, needleInCols_of_test cols b P w0 hc (hb w0 hkey)⟩
+      rw [forColLoop_or, allColLoop_or_any _ _ _ hAny]
+      cases allCols <;> simp
 
 /-- C03.3 (phrase) FULL strength: every phrase found in a stored value keeps the block (rotated and open segments) -/
 def PhrasePruneSound : Prop :=
